@@ -1026,6 +1026,116 @@ theorem find_fits_mode (mode : CompareMode) {fb : Option Nat}
   · rw [if_pos hc, if_neg (by omega)]
   · rw [if_neg hc, if_pos ⟨by omega, by omega⟩]
 
+/-! ### the Ensembl recogniser and the suffix cut -/
+
+theorem mem_takeWhile_pos {α} {p : α → Bool} {l : List α} {x : α} (h : x ∈ l.takeWhile p) :
+    p x = true := by
+  induction l with
+  | nil => simp at h
+  | cons a as ih =>
+    rw [List.takeWhile_cons] at h
+    split at h
+    next hp =>
+      rcases List.mem_cons.1 h with rfl | h
+      · exact hp
+      · exact ih h
+    next => simp at h
+
+theorem isUpperAZ_ne_dot {c : Char} (h : isUpperAZ c = true) : (c != '.') = true := by
+  rw [bne_iff_ne]; rintro rfl; revert h; decide
+
+theorem isDigit09_ne_dot {c : Char} (h : isDigit09 c = true) : (c != '.') = true := by
+  rw [bne_iff_ne]; rintro rfl; revert h; decide
+
+theorem isDigit09_not_upper {c : Char} (h : isDigit09 c = true) : isUpperAZ c = false := by
+  have e1 : 'A'.toNat = 65 := rfl
+  have e2 : '9'.toNat = 57 := rfl
+  unfold isDigit09 at h
+  unfold isUpperAZ
+  simp only [Bool.and_eq_true, decide_eq_true_eq] at h
+  simp only [Bool.and_eq_false_iff, decide_eq_false_iff_not]
+  left; omega
+
+theorem takeWhile_self_of_all {α} {p : α → Bool} {l : List α} (h : ∀ x ∈ l, p x = true) :
+    l.takeWhile p = l ∧ l.dropWhile p = [] := by
+  induction l with
+  | nil => exact ⟨rfl, rfl⟩
+  | cons a as ih =>
+    have ha := h a (by simp)
+    obtain ⟨i1, i2⟩ := ih (fun x hx => h x (by simp [hx]))
+    simp [ha, i1, i2]
+
+theorem takeWhile_append_stop {α} {p : α → Bool} {l1 l2 : List α} (h : ∀ x ∈ l1, p x = true)
+    (h2 : l2.head?.all (fun x => !p x) = true) :
+    (l1 ++ l2).takeWhile p = l1 ∧ (l1 ++ l2).dropWhile p = l2 := by
+  induction l1 with
+  | nil =>
+    cases l2 with
+    | nil => exact ⟨rfl, rfl⟩
+    | cons b bs =>
+      have : p b = false := by simpa using h2
+      simp [this]
+  | cons a as ih =>
+    have ha := h a (by simp)
+    obtain ⟨i1, i2⟩ := ih (fun x hx => h x (by simp [hx]))
+    simp [ha, i1, i2]
+
+/-- "Ensembl identifiers are kept (minus version suffix)": cutting the version
+suffix of an Ensembl identifier leaves an Ensembl identifier without a dot -/
+theorem isEnsembl_stripSuffix {s : Name} (h : isEnsembl s = true) :
+    isEnsembl (stripSuffix s) = true ∧ '.' ∉ stripSuffix s := by
+  refine ⟨?_, dot_notMem_stripSuffix s⟩
+  unfold isEnsembl at h
+  split at h
+  next rest =>
+    simp only [Bool.and_eq_true, Bool.not_eq_true', List.isEmpty_eq_false_iff] at h
+    obtain ⟨⟨hl, hd⟩, hr2⟩ := h
+    have hL : ∀ x ∈ rest.takeWhile isUpperAZ, isUpperAZ x = true := fun x hx => mem_takeWhile_pos hx
+    have hD : ∀ x ∈ (rest.dropWhile isUpperAZ).takeWhile isDigit09, isDigit09 x = true :=
+      fun x hx => mem_takeWhile_pos hx
+    generalize hLdef : rest.takeWhile isUpperAZ = L at *
+    generalize hR1def : rest.dropWhile isUpperAZ = R1 at *
+    generalize hDdef : R1.takeWhile isDigit09 = D at *
+    generalize hR2def : R1.dropWhile isDigit09 = R2 at *
+    have e1 : rest = L ++ R1 := by rw [← hLdef, ← hR1def, List.takeWhile_append_dropWhile]
+    have e2 : R1 = D ++ R2 := by rw [← hDdef, ← hR2def, List.takeWhile_append_dropWhile]
+    have hstrip : stripSuffix ('E' :: 'N' :: 'S' :: rest) = 'E' :: 'N' :: 'S' :: (L ++ D) := by
+      have hLD : ∀ x ∈ L ++ D, (x != '.') = true := by
+        intro x hx
+        rcases List.mem_append.1 hx with hx | hx
+        · exact isUpperAZ_ne_dot (hL x hx)
+        · exact isDigit09_ne_dot (hD x hx)
+      have : (L ++ D ++ R2).takeWhile (· != '.') = L ++ D := by
+        apply (takeWhile_append_stop hLD ?_).1
+        revert hr2
+        cases R2 with
+        | nil => intro _; rfl
+        | cons c cs =>
+          intro hr2
+          split at hr2
+          next heq => cases heq
+          next ver heq => cases heq; rfl
+          next => cases hr2
+      unfold stripSuffix
+      rw [e1, e2, ← List.append_assoc]
+      simp only [List.takeWhile_cons]
+      rw [this]
+      rfl
+    rw [hstrip]
+    have hDne : D ≠ [] := hd
+    have hhead : D.head?.all (fun x => !isUpperAZ x) = true := by
+      cases D with
+      | nil => exact absurd rfl hDne
+      | cons c cs =>
+        have := isDigit09_not_upper (hD c (by simp))
+        simp [this]
+    obtain ⟨t1, t2⟩ := takeWhile_append_stop (l2 := D) hL hhead
+    obtain ⟨t3, t4⟩ := takeWhile_self_of_all hD
+    unfold isEnsembl
+    simp only [t1, t2, t3, t4]
+    simp [hl, hDne]
+  next => cases h
+
 /-! ### a small example input -/
 
 /-- example input used by the non-vacuity examples of `CTM.Props.C16` -/
